@@ -376,8 +376,6 @@ def main(argv=None):
         if f.get("status") == "known" and f.get("property") == prop:
             for oid in f.get("obligations", []):
                 known_ids[oid] = f
-    baseline = load_json(os.path.join(HERE, "baseline", "obligations.json"), {}).get(prop, {})
-
     if args.write_baseline:
         path = os.path.join(HERE, "baseline", "obligations.json")
         allb = load_json(path, {})
@@ -385,6 +383,7 @@ def main(argv=None):
         os.makedirs(os.path.dirname(path), exist_ok=True)
         json.dump(allb, open(path, "w"), indent=1, sort_keys=True)
         print(f"baseline for {prop}: {len(obligations)} obligations written")
+    baseline = load_json(os.path.join(HERE, "baseline", "obligations.json"), {}).get(prop, {})
 
     discharged = [o for o in obligations.values() if o["status"] == "discharged"]
     refuted = [o for o in obligations.values() if o["status"] == "refuted"]
